@@ -834,6 +834,10 @@ fn measurements_from_packet(
     )
 }
 
+#[cfg(pendulum_project_ntpd_rs_verif)]
+#[path = "/verif/hooks/ntp_proto/source.rs"]
+pub mod verif_probe;
+
 #[cfg(test)]
 #[expect(
     clippy::too_many_lines,
